@@ -165,7 +165,7 @@ def drive(item):
     except Exception as ex:
         import traceback
         tb = traceback.extract_tb(ex.__traceback__)
-        where = [f for f in tb if '/repo/' in f.filename]
+        where = [f for f in tb if '/panqec/' in f.filename and '/site-packages/' not in f.filename]
         if not where:
             raise
         rec['raised'] = f'{type(ex).__name__}: {ex}'[:160]
